@@ -41,13 +41,34 @@ int main(void)
     psCipher16_t first[1] = { TLS_ECDHE_RSA_WITH_AES_256_GCM_SHA384 };
     psCipher16_t second[1] = { TLS_RSA_WITH_AES_128_GCM_SHA256 };
     const char *evil = "INJECTED-BY-ATTACKER-WITHOUT-KEYS";
-    int i;
+    int i, lastAlertSent = -1;
 
     CHECK(matrixSslOpen() >= 0, "open");
     CHECK(matrixSslNewKeys(&cliKeys, NULL) >= 0, "cli keys");
     CHECK(matrixSslLoadRsaKeysMem(cliKeys, NULL, 0, NULL, 0,
             RSA2048CA, RSA2048CA_SIZE) >= 0, "cli CA");
     CHECK(matrixSslNewSessionId(&sid, NULL) >= 0, "sid");
+
+    /* control case: the honest version of what the attacker imitates */
+    controlResumption(cliKeys, SSL_FLAGS_TLS_1_2, "TLS 1.2 session ticket resumption");
+
+    /* second control: an honest client that changes its cipher list between
+       two connections to an honest server (informational on the unrepaired
+       library: there the reconnect offers a ticket it has no secret for) */
+    {
+        sslKeys_t *sk = controlServerKeys();
+        sslSessionId_t *s2;
+        int res = 0, ok1, ok2;
+
+        CHECK(matrixSslNewSessionId(&s2, NULL) >= 0, "sid");
+        ok1 = honestConnection(sk, cliKeys, s2, SSL_FLAGS_TLS_1_2, first, 1, &res);
+        ok2 = honestConnection(sk, cliKeys, s2, SSL_FLAGS_TLS_1_2, second, 1, &res);
+        printf("control: honest reconnect with another cipher list: first %s,"
+            " second %s (resumed=%d)\n", ok1 ? "ok" : "FAILED",
+            ok2 ? "ok" : "FAILED", res);
+        matrixSslDeleteSessionId(s2);
+        matrixSslDeleteKeys(sk);
+    }
 
     /* ---- step 1: genuine connection ---------------------------------------- */
     CHECK(matrixSslNewKeys(&srvKeys, NULL) >= 0, "srv keys");
@@ -138,6 +159,7 @@ int main(void)
         !!(cli->flags & SSL_FLAGS_RESUMED));
     memset(&cap, 0, sizeof(cap));
     pump(cli, NULL, NULL, &cap);
+    if (cap.len >= 7 && cap.b[0] == 21) lastAlertSent = cap.b[6];
     printf("        client sent %u bytes (CCS+Finished),"
         " matrixSslHandshakeIsComplete=%d\n", cap.len,
         (int) matrixSslHandshakeIsComplete(cli));
@@ -156,6 +178,7 @@ int main(void)
             (int) matrixSslHandshakeIsComplete(cli));
         return 1;
     }
-    printf("no violation observed\n");
+    printf("OK: the client refused the attacker's handshake (alert %d sent),"
+        " nothing was reported as application data\n", lastAlertSent);
     return 0;
 }
